@@ -23,8 +23,7 @@ PROPERTY THEOREMS (audited by ./check): every `theorem C19_…` below.
 What remains ASSUMED: float TEXT — `strconv.FormatFloat`/`ParseFloat` inverse of each other on float64, the text of a
 scaled value contains a '.' (a one-digit mantissa with exponent below −4, "1e-05", has none; no (scale, raw) of the
 profile produces one): at the text level this is the explicit hypothesis `FloatOK` of the theorems, not an axiom; at the
-cell level it is built into the atoms `.flt` / `.scaled` / `.degrees` —; the degrees arithmetic (`Arith.so.degrees` = identity);
-`unicode.IsPrint` beyond ASCII; scaled 64-bit fields (none in the profile: `C12_profile_pairs_in_range`).
+cell level it is built into the atoms `.flt` / `.scaled` / `.degrees` —; `unicode.IsPrint` beyond ASCII; scaled 64-bit fields (none in the profile: `C12_profile_pairs_in_range`).
 -/
 namespace Fit.C19
 open Fit.Msg Fit.Value Fit.Csv Fit.Gen Fit.Gen.Csv
@@ -237,9 +236,9 @@ every developer field with its developer data index, number and value; a message
 The arithmetic of the scaled mode is the code's (`Arith.so`; `C12_csv` for every (scale, offset) of the profile).
 
 With the degrees option a position (the 38 fields in semicircles: plain sint32 scalars, regenerated table `semicirclesOK`)
-is written as `ToDegrees(s)` and read back through `ToSemicircles`; that composite is the parameter `Arith.so.degrees`,
-taken to be the identity (`float64(s)·(180/2^31)` is exact — at most 37 significant bits —, the quotient by the same
-constant is exactly `s` again; float text as everywhere: ASSUMED, compared with the implementation on every run).
+is written as `ToDegrees(s)` and read back through `ToSemicircles`: `Arith.so.degrees`, computed over the binary64 model
+(FitModel/TimeAngle.lean) and the identity on every int32 pattern by `C12_semicircles`; the float TEXT in between is
+assumed, as everywhere.
 
 What `csvUnambiguousB` asks (FitModel/CsvSpec.lean): every file starts with its only file_id;
 per message: number < 65536, field numbers distinct bytes, every field's value what the decoder produces for the field's
